@@ -269,6 +269,8 @@ m("C13-r6b", "C13", "controller/src/controller.rs", "\t\tif !req.is_object() || 
 m("C13-r6c", "C13", "controller/src/controller.rs", "\t\tif !req.is_object() || req[\"method\"].as_str() != Some(\"encrypted_request_v3\") {", "\t\tif !req.is_object() {", "C13.R6")
 m("C17-r2w", "C17", "libwallet/src/api_impl/owner.rs", "\t\tstd::cmp::max(w.last_confirmed_height()?, w.last_scanned_block()?.height);", "\t\tw.last_confirmed_height()?;", "C17.R2")
 
+m("C14-r8", "C14", "api/src/owner.rs", "\t\t\tlet _ = w.keychain(keychain_mask)?;\n\t\t}\n\t\tlet updater_inner = self.updater.clone();", "\t\t\tlet _ = w.keychain(keychain_mask);\n\t\t}\n\t\tlet updater_inner = self.updater.clone();", "C14.R8")
+
 
 def for_property(prop):
     return [x for x in M if x["property"] == prop]
